@@ -207,7 +207,7 @@ theorem code_range (fll : String) :
   · have wa := words_word fll.toList a (by simp [h])
     have wb := words_word fll.toList b (by simp [h])
     simp only [List.length_cons, List.length_nil, List.map_cons, List.map_nil, rangeOf, numTokOf, Py.Fll.toFloat, Py.nth, wa, wb]
-    cases ha : Dec.parse a <;> cases hb : Dec.parse b <;>
+    cases ha : parseNum a <;> cases hb : parseNum b <;>
       simp [ha, hb, wa, wb, bind, Except.bind, lift, Except.map, Err.toPy]
   · rfl
 
